@@ -411,7 +411,11 @@ Error BaseRAPass::init_shared_assignments(Span<uint32_t> shared_assignments_map)
   uint32_t count = 0;
   for (RABlock* block : _blocks) {
     if (block->has_shared_assignment_id()) {
-      uint32_t shared_assignment_id = shared_assignments_map[block->shared_assignment_id()];
+      // Resolve the root of the group (groups could have been merged multiple times).
+      uint32_t shared_assignment_id = block->shared_assignment_id();
+      while (shared_assignments_map[shared_assignment_id] != shared_assignment_id) {
+        shared_assignment_id = shared_assignments_map[shared_assignment_id];
+      }
       block->set_shared_assignment_id(shared_assignment_id);
       count = Support::max(count, shared_assignment_id + 1);
     }
